@@ -150,7 +150,7 @@ class ModHash(Comp):
         for ms in fixed_sets():
             for opts in (NO_YL, 0):
                 L.append(line_of("modhash", opts, ms))
-        for _ in range(self.n(tier, 500, 20000, scale)):
+        for _ in range(self.n(tier, 2000, 40000, scale)):
             ms = gen_set(rng)
             opts = rng.choice([NO_YL, NO_YL, 0, NO_YL | EXPLICIT])
             L.append(line_of("modhash", opts, ms))
@@ -249,7 +249,7 @@ class ModHashSens:
         L = []
         fs = fixed_sets()
         fixed = [(fs[0], fs[1])]
-        n = int((20000 if tier == "thorough" else 400) * scale)
+        n = int((30000 if tier == "thorough" else 1500) * scale)
         for i in range(n + len(fixed)):
             if i < len(fixed):
                 a, b = fixed[i]
@@ -367,7 +367,7 @@ class ChangeCount:
         for opts in (NO_YL | EXPLICIT, NO_YL, 0):
             L.append(line_of("chg", opts, fs, ["/", "L:1:-", "I:1:" + hx("c"), "I:1:" + hx("c"), "C", "I:2:~", "C", "I:2:*",
                                                "L:0:*", "C", "C", "L:0:" + hx("nosuch"), "I:0:" + hx("a")]))
-        for _ in range(int((6000 if tier == "thorough" else 250) * scale)):
+        for _ in range(int((12000 if tier == "thorough" else 800) * scale)):
             ms = gen_set(rng)
             opts = rng.choice([NO_YL, NO_YL, 0, NO_YL | EXPLICIT, EXPLICIT])
             ops = []
@@ -453,9 +453,9 @@ class YlRoundTrip(Comp):
         L = []
         for ms in fixed_sets():
             L.append(line_of("ylrt", 0, ms))
-        for _ in range(self.n(tier, 250, 8000, scale)):
+        for _ in range(self.n(tier, 600, 10000, scale)):
             L.append(line_of("ylrt", 0, gen_set(rng)))
-        for _ in range(self.n(tier, 120, 4000, scale)):
+        for _ in range(self.n(tier, 300, 5000, scale)):
             L.append(line_of("ylrt", 0, gen_multirev(rng)))
         return L
 
@@ -477,7 +477,7 @@ class YlOracle:
 
     def gen(self, rng, tier, scale=1.0):
         L = []
-        k = int((3000 if tier == "thorough" else 120) * scale)
+        k = int((5000 if tier == "thorough" else 300) * scale)
         for _ in range(k):
             L.append(line_of("ylrt", rng.choice([0, 0, EXPLICIT]), gen_set(rng)))
         for _ in range(k):
